@@ -47,6 +47,11 @@ def _resp(request, status, body=b'', headers=None, chunk=None, fail_after=None):
     return httpx.Response(status, headers=h, stream=_Stream(chunks, fail_after), request=request)
 
 
+class Unbounded(Exception):
+    """Raised by a fake service when one adapter operation has issued more requests than
+    any bounded retry policy would (the harness resets the budget before each operation)."""
+
+
 class Recorded:
     __slots__ = ('method', 'target', 'headers', 'body', 'host', 'scheme', 'complete', 'body_chunks')
 
@@ -62,6 +67,7 @@ class BaseFake(httpx.AsyncBaseTransport):
         self.fault_fn = None   # callable(index, Recorded-without-body) -> Fault | None
         self.n = 0
         self.body_chunk = None  # response body chunking
+        self.budget = None      # remaining requests for the current operation (None = unlimited)
 
     async def _read(self, request, limit=None):
         chunks = []
@@ -73,9 +79,16 @@ class BaseFake(httpx.AsyncBaseTransport):
             i += 1
         return b''.join(chunks), True, i
 
+    def reset_budget(self, n=200):
+        self.budget = n
+
     async def handle_async_request(self, request):
         idx = self.n
         self.n += 1
+        if self.budget is not None:
+            self.budget -= 1
+            if self.budget < 0:
+                raise Unbounded(f'more than the allowed number of requests for one operation ({request.method} {request.url.path})')
         rec = Recorded(method=request.method, target=request.url.raw_path, headers=[(k.lower(), v) for k, v in request.headers.raw],
                        body=None, host=request.url.netloc, scheme=request.url.scheme, complete=False, body_chunks=0)
         fault = self.fault_fn(idx, rec) if self.fault_fn else None
